@@ -87,6 +87,22 @@ func NewRun(prop string, seed int64, tier, outDir string) *Run {
 		Dist: map[string]int{}, nontrivial: map[string]bool{}, violSeen: map[string]int{}, OutDir: outDir}
 }
 
+// Mark notes what the harness is about to run (overwriting the previous note): if the implementation kills the
+// process (fatal fault, stack overflow, runtime corruption after a wrong unsafe cast), the check reports this input.
+func (r *Run) Mark(what string) {
+	if r == nil || r.OutDir == "" {
+		return
+	}
+	if len(what) > 4000 {
+		what = what[:4000]
+	}
+	os.WriteFile(r.OutDir+"/current.txt", []byte(what), 0o644)
+}
+
+var markRun *Run
+
+func mark(what string) { markRun.Mark(what) }
+
 // Case records one correspondence case: the request the model will be run on and what the implementation did.
 func (r *Run) Case(req Sx, implObs Sx) {
 	r.n++
@@ -186,6 +202,9 @@ func main() {
 		os.Exit(2)
 	}
 	r := NewRun(prop, seed, tier, outDir)
+	markRun = r
+	os.Remove(outDir + "/current.txt")
 	f(r)
+	os.Remove(outDir + "/current.txt")
 	r.Finish(outDir)
 }
